@@ -1,7 +1,8 @@
 // C20 registry: harness-level object ids -> objects; runs one op in an object and prints the uid snapshot
 #include "/include/vcommon.h"
 mapping obs = ([]);
-void create () { }
+// `cfg simul`: the simul_efun object is /c20/simul and is an actor like any other, id `se`
+void create () { if (find_object ("/c20/simul")) obs["se"] = find_object ("/c20/simul"); }
 void reg (string oid, object ob) { obs[oid] = ob; }
 void unreg (string oid) { map_delete (obs, oid); }
 object get (string oid) { if (oid == "m") return master (); return obs[oid]; }
